@@ -377,6 +377,28 @@ func checkKinds(v int64, u uint64, useU bool) (int, string) {
 			return n, fmt.Sprintf("%s, value %s: %s (bytes %s)", posName[ci], vs, msg, hexClip(b, 120))
 		}
 	}
+	// ---- lists whose element type is a named integer type ([]Perm with Perm uint8, a named byte slice):
+	// lists of integers on the wire, whatever the element kind
+	if !useU && v >= math.MinInt8 && v <= math.MaxUint8 {
+		nl := &zoo.NamedLists{ID: []zoo.BigID{1, 2}}
+		if v >= 0 {
+			nl.P = []zoo.Perm{0, zoo.Perm(v), zoo.Perm(v)}
+			nl.D = zoo.Digest{byte(v), 1, byte(v)}
+			nl.PM = map[string][]zoo.Perm{"k": {zoo.Perm(v)}}
+			nl.ID = []zoo.BigID{zoo.BigID(v), 1 << 40}
+		}
+		if v <= math.MaxInt8 {
+			nl.Lv = []zoo.Level{zoo.Level(v), -1, zoo.Level(v)}
+		}
+		n++
+		stage, err, b := roundTrip(nl)
+		if err != nil {
+			return n, fmt.Sprintf("lists of named integer types, value %s: %s: %v", vs, stage, err)
+		}
+		if msg := shortestForms(b); msg != "" {
+			return n, fmt.Sprintf("lists of named integer types, value %s: %s (bytes %s)", vs, msg, hexClip(b, 120))
+		}
+	}
 	return n, ""
 }
 
